@@ -57,6 +57,7 @@ def main (args : List String) : IO UInt32 := do
   | ["portmon"] => foldLines i o none drvPortMon; return 0
   | ["phy"] => foldLines i o none drvPhy; return 0
   | ["drammon"] => foldLines i o none drvDramMon; return 0
+  | ["timingmon"] => foldLines i o none drvTimingMon; return 0
   | ["core"] => foldLines i o none drvCore; return 0
   | ["controller"] => foldLines i o none drvController; return 0
   | ["refresher"] => foldLines i o none drvRefresher; return 0
